@@ -207,6 +207,8 @@ def t1(ctx):
     ctx.obligation(name, "refuted" if stores else "proved", "effects", time.time() - t0, PM + ":parsimony_score", detail=str(stores) if stores else None)
     if stores:
         failed.append((name, stores[0][1], stores[0][2], "store"))
+    from contracts import C16fitch
+    C16fitch.t1(ctx)
     if failed:
         r = native_history_dependence()
         for name, fname, ln, kind in failed[:1]:
@@ -234,6 +236,9 @@ def native_history_dependence():
 
 
 def replay(ctx, rec):
+    if "fitch-step" in str(rec.get("obligation", "")):
+        from contracts import C16fitch
+        return C16fitch.replay(ctx, rec)
     r = native_history_dependence()
     print(r or "score is independent of earlier scoring calls on the witness")
     return r is None
